@@ -10,14 +10,14 @@
 (* originally pinned) is expected to fail (ExportIndication with a path,   *)
 (* SCOPE ANY, real keys in CIMObject); the regression flags (keephost,    *)
 (* hdr_before_default, minst_order, ns_drop_empty, wrap_host_first,        *)
-(* name_host_first) must fail.  The object case space (ObjCases:           *)
+(* name_host_first, ns_shared) must fail.  The object case space (ObjCases:           *)
 (* tocimxml() of names / instances / classes / properties / parameter      *)
 (* values over path shape x ignore arguments x reference shapes) is        *)
 (* checked the same way (ValidTree; no headers).  With Emit = TRUE the     *)
 (* same run prints the cases as JSON for the harness (the WireOps_Gen      *)
 (* role).                                                                  *)
 (***************************************************************************)
-EXTENDS WireOpsImplOps, Json, FiniteSets
+EXTENDS WireOpsImplOps, Json, FiniteSets, SequencesExt
 
 CONSTANTS K, Variant, Emit
 
@@ -56,7 +56,11 @@ ImplHeaders == (IsCase /\ ~IsObjCase(c)) =>
                  ((R.emit /\ ValidTree(R.tree)) => HeaderFaults(AsEvent(R)) = {})
 ImplReqOk == IsCase => Fails(InitState, AsEvent(R)) = {}
 
-EmitInv == (Emit /\ IsCase) => PrintT(<<"CASE", ToJson(c)>>)
+(* the cases are printed with the coincidence class of their document      *)
+(* (WireOpsImplOps!Coincidence): the harness spells coinciding namespaces    *)
+(* identically                                                               *)
+EmitInv == (Emit /\ IsCase) =>
+             PrintT(<<"CASE", ToJson(c), Coincidence(DocOf(c, {}).tree)>>)
 
 ASSUME Variant \subseteq Flags
 (* every namespace value class occurs in every role of the case space *)
@@ -89,8 +93,19 @@ ASSUME \A sh \in RefShapes :
          /\ (IF sh = "ref" THEN "refi" ELSE sh) \in MParamShapes
 ASSUME \A sh \in InstRefShapes : <<sh>> \in KbShapes
 ASSUME \A sh \in RefShapes : RefSpec(sh).deep # "" => RefSpec(sh).deep \in InstRefShapes
+(* every pair of roles in which two paths of one document can lie in the    *)
+(* same namespace is reached by a case with at most one dimension off base   *)
+(* or by an object case (checked by the enumeration run only: it builds      *)
+(* the documents)                                                            *)
+ASSUME Emit => \A pr \in CoinRolePairs :
+                 \E cc \in Cases(1) \cup ObjCases :
+                   pr \in CoinPairs(DocOf(cc, {}).tree)
+ASSUME Emit => \A k \in {"iname", "inst", "class", "prop", "param"} :
+                 \E cc \in ObjCases :
+                   cc.kind = k /\ Coincidence(ObjTree(cc, {})) = "same"
 ASSUME PrintT(<<"OPTABLE", ToJson(OpTable)>>)
 ASSUME PrintT(<<"REFSPEC", ToJson([sh \in RefShapes \cup {"refi"} |-> RefSpec(sh)])>>)
 ASSUME PrintT(<<"MREFARRAYS", ToJson(MRefArrays)>>)
 ASSUME PrintT(<<"ITERTARGET", ToJson(IterTarget)>>)
+ASSUME PrintT(<<"HDRCLASSES", ToJson(SetToSeq(HdrNameClasses))>>)
 =============================================================================
